@@ -432,9 +432,52 @@ fn logical(pos: u64) -> u64 {
     if pos % 4 < 3 && a < EXHAUSTIVE { a } else { EXHAUSTIVE + pos - a.min(EXHAUSTIVE) }
 }
 
+/// Fixed cases, the same at every seed (logical indices EXHAUSTIVE..EXHAUSTIVE+NFIXED): the largest vertex id
+/// usize::MAX (a tempting "no vertex" sentinel), 2-cycles (a neighbour that is both successor and predecessor),
+/// and their combinations, as algorithm cases from every root and as edit histories that remove such vertices.
+const M: usize = usize::MAX;
+fn fixed_graphs() -> Vec<(Vec<usize>, Vec<(usize, usize)>)> {
+    vec![
+        (vec![0, M], vec![(0, M), (M, 0)]),
+        (vec![M], vec![(M, M)]),
+        (vec![M, M - 1, 5], vec![(M, M - 1), (M - 1, M), (M - 1, 5), (5, M)]),
+        (vec![1, 2, 3], vec![(1, 2), (2, 1), (2, 3), (3, 2)]),
+        (vec![0, 1, 2, M], vec![(0, 1), (1, 0), (0, M), (M, 2), (2, M), (1, 2)]),
+        (vec![0, 1, M], vec![(0, 1), (1, 0), (M, 1), (M, M)]),
+        (vec![3, M, 7, 0, 9], vec![(3, M), (M, 7), (7, M), (M, 0), (0, 9), (9, 0), (9, 3), (7, 9)]),
+        (vec![0, 1, 2, 3, 4, M], vec![(0, 1), (1, 2), (2, 3), (3, 4), (4, M), (M, 0), (2, 1), (4, 3), (M, 4), (1, M)]),
+    ]
+}
+fn fixed_histories() -> Vec<(Vec<usize>, Vec<HOp>)> {
+    use HOp::*;
+    vec![
+        (vec![0, M], vec![InsV(0, 1), InsV(M, 2), InsE(0, M, 3), InsE(M, 0, 4), RemV(0), InsV(0, 6), InsE(0, M, 7), RemE(M, 0), RemV(M), RemV(M)]),
+        (vec![1, 2, 3], vec![InsV(1, 1), InsV(2, 2), InsV(3, 3), InsE(1, 2, 4), InsE(2, 1, 5), InsE(1, 1, 6), InsE(3, 1, 7), InsE(1, 3, 8),
+                             RemV(1), InsV(1, 10), InsE(2, 1, 11), RemE(1, 2), RemV(2), RemV(3), RemV(1)]),
+        (vec![M, M - 1, 4], vec![InsV(M, 1), InsE(M, M, 2), InsV(M - 1, 3), InsE(M, M - 1, 4), InsE(M - 1, M, 5), InsV(4, 6), InsE(4, M, 7),
+                                 InsE(M, 4, 8), InsE(4, M, 9), RemV(M), RemE(4, M), InsV(M, 12), RemV(M - 1), RemV(4), RemV(M)]),
+    ]
+}
+fn n_fixed() -> u64 {
+    fixed_graphs().iter().map(|(vs, _)| vs.len() as u64).sum::<u64>() + fixed_histories().len() as u64
+}
+fn fixed_case(k: u64) -> Case {
+    let mut k = k;
+    for (vs, es) in fixed_graphs() {
+        if k < vs.len() as u64 {
+            let root = vs[k as usize];
+            return alg_case("alg-fixed", vs, es, root, vec!["fixed:usize-max-or-2-cycle".into()]);
+        }
+        k -= vs.len() as u64;
+    }
+    let (pool, ops) = fixed_histories().swap_remove(k as usize);
+    hist_replay(pool, vec!["fixed:usize-max-or-2-cycle".into()], ops)
+}
+
 fn gen_case(seed: u64, pos: u64) -> Case {
     let idx = logical(pos);
     if idx < EXHAUSTIVE { return exhaustive_case(idx); }
+    if idx < EXHAUSTIVE + n_fixed() { return fixed_case(idx - EXHAUSTIVE); }
     let mut r = Rng::for_case(seed, idx);
     if idx % 10 < 7 { random_alg_case(&mut r) } else { hist_case(&mut r) }
 }
